@@ -5,13 +5,46 @@ HERE = os.path.dirname(os.path.dirname(os.path.abspath(__file__)))
 ids = [json.loads(l)['id'] for l in open(os.path.join(HERE, 'properties.jsonl'))]
 
 TV = 'translation_validation'
+CORPUS = 'a class-structured corpus of derive instances (12 reprs x sign / run structure / type-limit adjacency / size / declaration order / literal spelling / naming classes x mode configurations; ~1800 instances quick, more in thorough)'
+PER = ' The run-time-input quantifier is decided exactly per generated instance; the quantifier over declarations is covered by the corpus classes, not closed (DESIGN.md 6).'
+BASE = 'trusts rustc (type check, MIR, const eval of literals), the core summary table listed in the evidence file, and the hand-argued soundness of the rules in rules/*.py'
 CLAIMED = {
+ 'C01': dict(cat=TV, tech='path-sensitive interval analysis of the MIR of try_from/TryFrom (comparison guards + run-table scan specialised per table entry): accept set compared with the declared discriminants; cast-provenance rule for into/From',
+   text='For each instance of ' + CORPUS + ', the set of inputs n for which try_from / TryFrom::try_from returns Some/Ok(transmute(n)) is computed from the MIR as an interval set (every CFG path, every table entry) and must equal the declared discriminant set; all other n must reach None/Err(()); no panic edge may be reachable; into/From must return the discriminant read.' + PER,
+   note=BASE, ref='5 C01, rules/scan.py'),
+ 'C02': dict(cat=TV, tech='MIR obligation enumeration (transmute, unsafe callees) + discharge by the item rules that decide the value of the enclosing body; unsafe-callee whitelist',
+   text='Every transmute and every call of an unsafe fn in every derived body of every corpus instance is enumerated from MIR. Each must sit in a body whose item rule passed (accept set / step function / index map / constructor decided for all inputs), must flow into the value that rule examined, and must be one of the three known kinds; MaybeUninit reads need the no-early-exit table loop with covering write guards. obligations == discharged is required.' + PER,
+   note=BASE + '; iterator histories add no obligations beyond inputs (fields are Option<E> / core iterators)', ref='5 C02, props/c02.py'),
+ 'C03': dict(cat=TV, tech='per-variant read-out of as_str (switch targets / piecewise-affine index into the folded name table, run-table find() specialised per entry) compared with the rename-or-identifier name; delegation rule for Debug/Display/IntoStr by resolved callee',
+   text='For every variant of every corpus instance the string as_str returns is read off the MIR: match arms directly; table modes by evaluating the index expression as a piecewise-affine function of the discriminant over the whole declared set and reading the folded name table. Debug/Display/IntoStr must be write_str(as_str(*self)) / as_str(self) with the callee identified by def-id. Panic edges (bounds checks, unchecked unwrap) must be unreachable.' + PER,
+   note=BASE, ref='5 C03, rules/r_asstr.py'),
+ 'C04': dict(cat=TV, tech='the argument is shown to be touched only by <str as PartialEq>::eq with constants; the ordered (constant, result) list is read off the CFG (match chain / first-match scan of the folded name table) and compared with the name->smallest-discriminant map',
+   text='from_str/FromStr in all modes: the only operations on the argument must be equality tests with constants (anything else is reported), so the function on all strings is determined by an ordered list of (string, result) pairs; that list is extracted (table modes: index->discriminant conversion evaluated as a piecewise-affine function; zip alignment of the two tables) and must map exactly the set of names, each to the variant with the smallest discriminant bearing it, and everything else to None/Err(()).' + PER,
+   note=BASE, ref='5 C04, rules/r_fromstr.py'),
+ 'C05': dict(cat=TV, tech='MIN/MAX folded and compared with the sorted variant list; next/next_back evaluated per CFG path and per run-table entry as piecewise-affine functions of the discriminant and compared with the successor/predecessor function on the whole declared set',
+   text='For every corpus instance the value next / next_back returns is computed for all variants at once (interval regions x affine offsets; the with-holes scan is specialised per table entry, including the fall-over to the neighbouring run) and compared with the specification successor / predecessor; None exactly at MAX / MIN; overflow asserts and unchecked unwraps must be unreachable.' + PER,
+   note=BASE, ref='5 C05, rules/r_next.py'),
+ 'C06': dict(cat=TV, tech='reduction: forwarding rule on all Iterator/DoubleEndedIterator/ExactSizeIterator methods + constructor-term rule (modes range/table/table_inline), cursor-invariant rules on the MIR of next/next_back/size_hint/len (mode next_and_back)',
+   text='The histories quantifier is discharged by reduction, not sampled: a struct all of whose iterator methods forward to the same method of its single field behaves like that field under every call sequence, and the field is a core iterator whose content is fixed by the folded constructor term (all variants ascending); for next_and_back the MIR of next/next_back must implement the cursor invariant (len==0 guard, return old cursor, cursor := and_then(verified step), len := len-1, nothing else written).' + PER,
+   note=BASE + '; core iterator algebra (Map<RangeInclusive>, Copied<slice::Iter>, array::IntoIter) is trusted', ref='5 C06, rules/r_iter.py'),
+ 'C07': dict(cat=TV, tech='index terms of both arguments (affine, or MaybeUninit written in a no-early-exit table loop) compared with the position function; constructor-term rule per mode; panic-edge discharge by dominating start_idx<=end_idx guard; C06 rules on the result',
+   text='For every corpus instance with range: start/end index expressions are evaluated as piecewise-affine functions over the whole declared set (per run-table entry for enums with holes) and must equal the position in discriminant order; the result constructor must be the sub-range / sub-slice / (Some(a),Some(b),len) form with len = 0 exactly when start_idx > end_idx; the slice index and the subtraction must be dominated by that test (never panics); the returned struct satisfies the C06 rules.' + PER,
+   note=BASE, ref='5 C07, rules/r_range.py'),
+ 'C08': dict(cat=TV, tech='name table folded and compared with names in discriminant order; constructor term copied(iter(&table)); forwarding rule on the names struct',
+   text='names() must construct Copied<slice::Iter> over the whole name table (folded from MIR and compared byte-for-byte with the rename-or-identifier names in discriminant order) and every iterator method must forward to the same method of that field, so every call sequence behaves like the core iterator over the sorted name list; alignment with iter()/as_str follows from all three being checked against the same order.' + PER,
+   note=BASE, ref='5 C08'),
+ 'C09': dict(cat=TV, tech='all item rules of C01-C08 (each against a mode-free specification) over a configuration matrix: every mode value, auto under every steering co-feature set, gapless and holes',
+   text='Each item rule compares an item with a specification that does not mention modes; this check requires every rule to pass for every enabled item in every configuration of the matrix (full mode product on four declarations, auto-steering sets, and all other corpus instances), which implies equal behaviour across configurations. What auto picks is not prescribed.' + PER,
+   note=BASE, ref='5 C09'),
  'C11': dict(cat=TV, tech='accept witnesses compiled by rustc; derived constant tables folded from MIR and compared with rustc AdtDef discriminants',
-   text='Every instance of a class-structured declaration corpus (12 reprs x sign/run/limit/size/order/spelling/naming classes) is compiled; the derive must accept it, and every table it emits (MIN/MAX, name table, variant table, run table with offsets) is constant-folded from its MIR initialiser and compared with the compiler\'s own discriminants; `into`/`From` must return the discriminant read. Decides the property per generated instance for all run-time inputs; the quantifier over declarations is covered by classes, not closed.',
+   text='Every instance of ' + CORPUS + ' must be accepted by the derive, and every table it emits (MIN/MAX, name table, variant table, run table with offsets) is constant-folded from its MIR initialiser and compared with the compiler\'s own discriminants; into/From must return the discriminant read.' + PER,
    note='trusts rustc (type check, MIR, AdtDef::discriminants) and the folder for literals/Neg/wrapping_sub/RangeInclusive::new; sizes near 65534 only in the thorough tier', ref='5 C11, 4.3'),
+ 'C15': dict(cat=TV, tech='resolved visibility, def paths and callees from tcx for a matrix of enum visibilities x vis/name/struct_name parameters; public-surface equality',
+   text='For every instance of a matrix {enum visibility} x {vis absent, "", pub(crate), pub} x {name/struct_name given or not} x feature sets that pull in helpers: each requested item exists under the requested name with exactly the requested resolved visibility (default: the enum\'s), the named struct is the one the function returns, every other associated item / field is private to the enum\'s module, the set of trait impls equals the requested one, and delegating features call the user-named item.',
+   note='visibility is rustc\'s resolved tcx.visibility; reachability from outside follows from it', ref='5 C15'),
  'C19': dict(cat=TV, tech='resolved signatures from tcx (fn_sig, is_const_fn, type_of, impl_trait_ref) compared with the documented ones for every instance of the configuration corpus',
-   text='For every instance of the configuration corpus (every mode of every moded feature, gapless and with holes, 12 reprs) the documented signature of every requested item is compared with what rustc resolved: parameter and return types, const-ness of `into`, associated-const types, trait impls with their associated types, the four iterator traits with Item. Signatures are facts of the type-checked program, so this is exact per instance.',
-   note='trusts rustc\'s resolved signatures; the configuration quantifier is covered by the corpus of DESIGN.md 3.3', ref='5 C19'),
+   text='For every corpus instance (every mode of every moded feature, gapless and with holes, 12 reprs) the documented signature of every requested item is compared with what rustc resolved: parameter and return types, const-ness of into, associated-const types, trait impls with their associated types, the four iterator traits with Item.',
+   note='trusts rustc\'s resolved signatures; the configuration quantifier is covered by the corpus', ref='5 C19'),
 }
 NA_REASON = 'check not built yet (round 1 in progress); see DESIGN.md section 5 for the planned static decision'
 
